@@ -1532,7 +1532,23 @@ def r_entry(E):
         if isinstance(lit, (ast.List, ast.Tuple, ast.Set)) and all(isinstance(e, ast.Constant) for e in lit.elts):
             names = {e.value for e in lit.elts}
         own = formula(ast.Compare(left=own_tests[0].left, ops=[ast.In()], comparators=[coll]), fn)
-    if names != {"_value", "modeling_obj_container", "attr_name_in_mod_obj_container"}:
+    # the wrapper's own fields: what its methods, and those of the link base class it inherits, assign on `self` — on the
+    # pinned tree _value, modeling_obj_container and attr_name_in_mod_obj_container. A name listed but never assigned
+    # locally would swallow an assignment meant for the wrapped object; a field not listed would be forwarded to it
+    own_fields = set()
+    for k_ in pm.mro("ContextualModelingObjectAttribute"):
+        if k_ in pm.classes and "ObjectLinkedToModelingObj" in pm.mro(k_):
+            for m_ in pm.own_methods(k_):
+                if m_.name == "__setattr__":
+                    continue
+                for a_ in ast.walk(m_):
+                    if isinstance(a_, ast.Assign):
+                        for t_ in a_.targets:
+                            if isinstance(t_, ast.Attribute) and isinstance(t_.value, ast.Name) and t_.value.id == m_.args.args[0].arg:
+                                own_fields.add(t_.attr)
+    if not {"_value", "modeling_obj_container", "attr_name_in_mod_obj_container"} <= own_fields:
+        res.undecided.append(f"the wrapper's own fields could not be derived ({sorted(own_fields)})")
+    if names != own_fields:
         fwd_ok = False
     if fwd_ok:
         want_fwd = f"setattr({ps[0]}._value, {ps[1]}, {ps[2]})"
@@ -1685,6 +1701,25 @@ def _flows_to_own_store(n, f, pm, depth=4, _seen=None):
     return False
 
 
+def _identity_mirror_remover(n, fn):
+    """`self.F = [x for x in self.F if x is not <parameter>]` as the only write of fn: the list without one given object"""
+    ps = [a.arg for a in fn.args.args][1:]
+    if not (isinstance(n, ast.Assign) and len(n.targets) == 1 and isinstance(n.value, (ast.ListComp,)) and len(ps) == 1):
+        return False
+    comp = n.value
+    if len(comp.generators) != 1 or norm(comp.generators[0].iter) != norm(n.targets[0]) or len(comp.generators[0].ifs) != 1:
+        return False
+    g = comp.generators[0]
+    t = g.ifs[0]
+    if norm(comp.elt) != norm(g.target):
+        return False
+    ok = isinstance(t, ast.Compare) and len(t.ops) == 1 and isinstance(t.ops[0], ast.IsNot) and \
+        {norm(t.left), norm(t.comparators[0])} == {norm(g.target), ps[0]}
+    other_writes = [x for x in ast.walk(fn) if isinstance(x, (ast.Assign, ast.AugAssign, ast.Delete)) and x is not n] + \
+        [c for c in ast.walk(fn) if isinstance(c, ast.Call) and isinstance(c.func, ast.Attribute) and c.func.attr in MUTATORS]
+    return ok and not other_writes
+
+
 @rule("R-EDGE")
 def r_edge(E):
     pm = E.pm
@@ -1721,6 +1756,17 @@ def r_edge(E):
                         f"referenced twice in one update is reported by one holder only", rel, n.lineno, q))
                     continue
                 if q not in EDGE_WRITERS[h] and _delegated(q, set(EDGE_WRITERS[h]), edge_callers):
+                    continue
+                if q not in EDGE_WRITERS[h] and h == "contextual_modeling_obj_containers" and fn is not None \
+                        and _identity_mirror_remover(n, fn) and all(
+                            c_.startswith("ContextualModelingObjectAttribute.") and c_.split(".")[-1] in (
+                                "set_modeling_obj_container", "__init__")
+                            for c_ in edge_callers.get(fn.name, {"?"})):
+                    # the mirror of add_to_…: the registry pruned of exactly one wrapper, chosen by *identity* (all wrappers
+                    # of one object compare equal), called by the wrapper's own attach / detach primitive only
+                    if len(res.samples) < 6:
+                        res.samples.append({"writer": q, "field": h, "verdict": "identity-filtered removal, called by the "
+                                                                                  "wrapper's attach / detach primitive only"})
                     continue
                 if q not in EDGE_WRITERS[h]:
                     res.findings.append(Finding(
